@@ -22,22 +22,23 @@ time_t time(time_t *t) { if (t) *t = g_now; return g_now; }
 /* ---- allocation fault injection through the public jwt_set_alloc ---- */
 static long g_alloc_count = 0, g_alloc_fail_at = -1; /* fail the k-th request (1-based) */
 static int g_alloc_hooked = 0;
-static char g_fail_site[512];
+static char g_fail_site[1024];
 static void *x_malloc(size_t n)
 {
 	g_alloc_count++;
 	if (g_alloc_fail_at > 0 && g_alloc_count == g_alloc_fail_at) {
-		void *bt[16];
-		int k = backtrace(bt, 16);
+		void *bt[24];
+		int k = backtrace(bt, 24);
 		char **syms = backtrace_symbols(bt, k);
 		g_fail_site[0] = 0;
 		if (syms) {
-			for (int i = 1; i < k && i < 7; i++) {
+			for (int i = 1; i < k && strlen(g_fail_site) < sizeof(g_fail_site) - 80; i++) {
 				char *p = strchr(syms[i], '('), *q = p ? strchr(p, '+') : NULL;
 				if (p && q && q > p + 1) {
+					if (!strncmp(p + 1, "handle", 6) || !strncmp(p + 1, "main", 4)) break;
 					strncat(g_fail_site, p + 1, (size_t)(q - p - 1) < 60 ? (size_t)(q - p - 1) : 60);
-					strcat(g_fail_site, "<");
-				}
+				} else strcat(g_fail_site, "?");
+				strcat(g_fail_site, "<");
 			}
 			free(syms);
 		}
